@@ -243,6 +243,62 @@ def p_moveaxis(rng: Any) -> tuple[str, list[Any]]:
     return 'moveaxis/M@MT', [m, mt]
 
 
+def p_nearmiss(rng: Any) -> tuple[str, list[Any]]:
+    """Operand pairs that look like a documented pattern (same classes) but are NOT one: the second
+    operand belongs to a different object / different parameters.  Nothing has to be simplified here
+    (C07 says nothing) but whatever reduce() does must preserve the map (C01)."""
+    form = int(rng.integers(7))
+    s = _leaf(rng)
+    if form == 0:      # pack_a @ pack_b.T with different masks
+        a, b = gen.a_pack(rng, s), gen.a_pack(rng, s)
+        return 'nearmiss/pack@otherpack.T', [a, b.T]
+    if form == 1:      # pack @ index.T / index @ pack.T
+        pk = gen.a_pack(rng, s)
+        n0 = s.shape[0]
+        idx = (jnp.asarray(rng.permutation(n0)[: int(rng.integers(1, n0 + 1))], dtype=jnp.int32),)
+        ix = IndexOperator(idx, in_structure=s, out_structure=gen.index_out_structure(s, idx), unique_indices=True)
+        return ('nearmiss/pack@index.T', [pk, ix.T]) if rng.integers(2) else ('nearmiss/index@pack.T', [ix, pk.T])
+    if form == 2:      # two different duplicate-free index operators of the same length
+        n0 = s.shape[0]
+        k = int(rng.integers(1, n0 + 1))
+        ops = []
+        for _ in range(2):
+            idx = (jnp.asarray(rng.permutation(n0)[:k], dtype=jnp.int32),)
+            ops.append(IndexOperator(idx, in_structure=s, out_structure=gen.index_out_structure(s, idx), unique_indices=True))
+        return ('nearmiss/index@otherindex.T', [ops[0], ops[1].T]) if rng.integers(2) else ('nearmiss/index.T@otherindex', [ops[0].T, ops[1]])
+    if form == 3:      # diagonal next to the inverse of another diagonal
+        d1, d2 = gen.a_diagonal(rng, s), gen.a_diagonal(rng, s)
+        if d1.axis_destination != d2.axis_destination or d1._diagonal.shape != d2._diagonal.shape:
+            d2 = DiagonalOperator(d1._diagonal + 1, axis_destination=d1.axis_destination, in_structure=s)
+        return ('nearmiss/D.I@otherD', [d1.I, d2]) if rng.integers(2) else ('nearmiss/D@otherD.I', [d1, d2.I])
+    if form == 4:      # move-axis pair that is inverse for the first leaf's rank only (axes written with other signs)
+        dt = _dt(rng)
+        st = [S(pick(rng, [(2, 2), (2, 3)]), dt), S((2, 2, 2), dt)] if rng.integers(2) else [S((2, 2, 2), dt), S((2, 2), dt)]
+        r0 = len(st[0].shape)
+        for _ in range(30):
+            m = gen.a_moveaxis(rng, st)
+            flip = lambda a: a - r0 if a >= 0 else a + r0  # noqa: E731
+            src, dst = tuple(flip(a) for a in m.destination), tuple(flip(a) for a in m.source)
+            try:
+                for l in gen.leaves(m.out_structure()):
+                    np.moveaxis(np.zeros(l.shape), src, dst)
+            except Exception:  # noqa: BLE001
+                continue
+            left = MoveAxisOperator(src, dst, in_structure=m.out_structure())
+            return 'nearmiss/moveaxis-other-signs', [left, m]
+        m = gen.a_moveaxis(rng, st)
+        return 'moveaxis/MT@M', [m.T, m]
+    if form == 5:      # the transpose of one reshape next to another reshape object with the same shapes
+        r1 = gen.a_reshape(rng, s)
+        r2 = ReshapeOperator(tuple(gen.leaves(r1.out_structure())[0].shape), in_structure=s)
+        return ('nearmiss/reshape@otherreshape.T', [r1, r2.T]) if rng.integers(2) else ('nearmiss/reshape.T@otherreshape', [r1.T, r2])
+    # lazy inverse next to an equal but different operator
+    band = jnp.asarray([4.0, 1.0], dtype=s.dtype)
+    x1 = SymmetricBandToeplitzOperator(band, s, method='dense')
+    x2 = SymmetricBandToeplitzOperator(jnp.asarray([5.0, 1.0], dtype=s.dtype), s, method='dense')
+    return ('nearmiss/X.I@otherX', [x1.I, x2]) if rng.integers(2) else ('nearmiss/X@otherX.I', [x1, x2.I])
+
+
 PATTERNS = {
     'inverse': p_inverse,
     'qurot': p_qurot,
@@ -255,6 +311,7 @@ PATTERNS = {
     'transpose_index': p_transpose_index,
     'reshape': p_reshape,
     'moveaxis': p_moveaxis,
+    'nearmiss': p_nearmiss,
 }
 
 INERT = ('dense', 'diagonal', 'toeplitz', 'broadcast_diagonal')
